@@ -17,5 +17,5 @@ def run(rep):
     sc.leg_m(rep, 'C05', [(3, 2, 2, 1)] if quick else [(4, 2, 2, 2), (6, 2, 1, 3)])
     sc.leg_a(rep, 'C05', 4 if quick else 6, 2, 1 if quick else 2)
     sc.leg_b(rep, 'C05', 36 if quick else 400, 40 if quick else 60, 3 if quick else 4, 4 if quick else 5,
-             list(gen.FAMILIES), ms=(0, 2), ks=(2, 3))
+             list(gen.FAMILIES), ms=(0, 4), ks=(2, 3))
     rep.exhaustive = True
